@@ -52,6 +52,9 @@ EDITS = {
         ("cv02", "crates/lib/mimium-lang/src/compiler/mirgen.rs", "                    self.make_intrinsics(*label, raw_args, coerced_args, ret_ty)\n                {\n                    (res, states)", "                    self.make_intrinsics(*label, raw_args, coerced_args, ret_ty)\n                {\n                    let _ = states;\n                    (res, vec![])", "verus", "mirgen_state"),
         ("aa01", "crates/lib/mimium-lang/src/compiler/mirgen.rs", "            states.extend(s);\n            self.push_inst(Instruction::Store(ptr, v, elem_ty));", "            if i == 0 { states.extend(s); }\n            self.push_inst(Instruction::Store(ptr, v, elem_ty));", "verus", "mirgen_state"),
         ("aa02", "crates/lib/mimium-lang/src/compiler/mirgen.rs", "        // from the type information.\n        (dst, alloc_ty, states)", "        // from the type information.\n        (dst, alloc_ty, Vec::new())", "verus", "mirgen_state"),
+        ("lp01", "crates/lib/mimium-lang/src/compiler/mirgen.rs", "                        let child = ctx.program.functions.get_mut(c_idx.0 as usize).unwrap();", "                        let child = ctx.program.functions.get_mut((c_idx.0 as usize).saturating_sub(1)).unwrap();", "verus", "mirgen_state"),
+        ("lp02", "crates/lib/mimium-lang/src/compiler/mirgen.rs", "        self.program.functions.push(newf);\n        FunctionId(index as _)", "        self.program.functions.push(newf);\n        FunctionId(self.program.functions.len() as _)", "verus", "mirgen_state"),
+        ("lp03", "crates/lib/mimium-lang/src/mir.rs", "            state_skeleton: StateTreeSkeleton::FnCall(state_boxed),", "            state_skeleton: StateTreeSkeleton::FnCall(state_boxed.into_iter().take(1).collect()),", "verus", "mirgen_state"),
         ("ea01", "crates/lib/mimium-lang/src/compiler/mirgen.rs", "        (ats, states)\n    }", "        (ats, Vec::new())\n    }", "verus", "mirgen_state"),
         ("sy01", "crates/lib/mimium-lang/src/mir.rs", "            Type::Tuple(elems) => StateType(elems.iter().map(|ty| ty.word_size() as u64).sum()),", "            Type::Tuple(elems) => StateType(elems.len() as u64),", "verus", "state_type"),
         ("sy02", "crates/lib/mimium-lang/src/mir.rs", "                    .map(|RecordTypeField { ty, .. }| ty.word_size() as u64)\n                    .sum(),", "                    .map(|RecordTypeField { ty, .. }| ty.word_size().min(1) as u64)\n                    .sum(),", "verus", "state_type"),
